@@ -128,6 +128,8 @@ type Server struct {
 	RestoreSeen   []RestoreCall
 	MaxRdbVersion uint16
 	CommandHook   func(args [][]byte) resp.Reply
+	// QuietReq: requests for which it returns true are processed but appear in neither log (bulk scans that would drown the history).
+	QuietReq func(cmd string, args [][]byte, reply string) bool
 	// CountPred restricts which requests count towards CrashAfter (nil = all).
 	CountPred func(cmd string, args [][]byte) bool
 }
@@ -361,6 +363,9 @@ func (s *Server) handle(cs *connState, name string, args [][]byte) resp.Reply {
 		if len(req.Reply) > 200 {
 			req.Reply = req.Reply[:200] + "..."
 		}
+		if s.QuietReq != nil && s.QuietReq(name, args, req.Reply) {
+			return
+		}
 		s.Reqs = append(s.Reqs, req)
 	}()
 
@@ -468,6 +473,9 @@ func (s *Server) execLogged(cs *connState, name string, args [][]byte, group int
 	rs := resp.String(reply)
 	if len(rs) > 120 {
 		rs = rs[:120] + "..."
+	}
+	if s.QuietReq != nil && s.QuietReq(name, args, rs) {
+		return reply
 	}
 	s.Log = append(s.Log, LogEntry{Seq: s.seq, Conn: cs.id, DB: db, Cmd: name, Args: args, ArgsS: quoteArgs(args), Group: group, InTxn: inTxn, Reply: rs, Node: s.Name})
 	if s.OnExec != nil {
